@@ -63,6 +63,8 @@ type Scenario struct {
 	Uid            int      `json:"uid"`
 	Env            []string `json:"env,omitempty"`    // extra environment of the command (locale, TZ, ...)
 	Stdout         string   `json:"stdout,omitempty"` // "" (pipe, captured) | closed | devfull
+	Stdin          string   `json:"stdin,omitempty"`  // "" (/dev/null) | closed
+	Cwd            string   `json:"cwd,omitempty"`    // "" (the world directory) | root | readonly (a directory the user cannot write; paths are absolute then)
 	Argv0          string   `json:"argv0,omitempty"`  // invoke the command through a symlink of this name
 	SrcMtime       int64    `json:"src_mtime,omitempty"`
 	Fault          *Fault   `json:"fault,omitempty"`
@@ -426,6 +428,9 @@ func (s *Scenario) buildWorld(W string, src []byte, image []byte) (*worldPaths, 
 	case "emptyarg":
 	case "stdin": // `preprocessor | gosk /dev/stdin out`
 		wp.stdinData = append([]byte{}, src...)
+	case "other_readable": // root-owned, readable only through the "other" permission bits
+		must(os.WriteFile(srcAbs, src, 0604))
+		os.Chmod(srcAbs, 0604)
 	case "relative", "dotslash":
 		must(os.WriteFile(srcAbs, src, 0644))
 	case "dotdot_via_symlink":
@@ -517,6 +522,13 @@ func (s *Scenario) buildWorld(W string, src []byte, image []byte) (*worldPaths, 
 		tgt := filepath.Join(W, "out", "newtarget.bin")
 		must(os.Symlink(tgt, dstAbs))
 		dstArg, dstAbs = dstAbs, tgt
+	case "other_writable": // existing root-owned file writable through the "other" bits, in a root-owned directory
+		d := filepath.Join(W, "rootdir")
+		must(os.Mkdir(d, 0755))
+		dstAbs = filepath.Join(d, dstName)
+		dstArg = dstAbs
+		must(os.WriteFile(dstAbs, pre(len(image)+3), 0666))
+		os.Chmod(dstAbs, 0666)
 	case "rw_file_in_ro_dir": // an existing, writable output in a directory that cannot be modified
 		d := filepath.Join(W, "fixeddir")
 		must(os.Mkdir(d, 0755))
@@ -612,6 +624,12 @@ func (s *Scenario) buildWorld(W string, src []byte, image []byte) (*worldPaths, 
 				return nil
 			}
 			if s.DstKind == "rw_file_in_ro_dir" && p == filepath.Join(W, "fixeddir") {
+				return nil
+			}
+			if s.DstKind == "other_writable" && strings.HasPrefix(p, filepath.Join(W, "rootdir")) {
+				return nil
+			}
+			if s.SrcKind == "other_readable" && p == srcAbs {
 				return nil
 			}
 			os.Lchown(p, nobody, nobody)
@@ -1027,6 +1045,9 @@ func (c *c19Ctx) execute(s *Scenario, keepDir bool) (out *ScenarioOutcome, viol 
 				bin = ln
 			}
 		}
+		if s.Stdin == "closed" {
+			cmd = append(cmd, "/bin/sh", "-c", `exec "$@" <&-`, "sh")
+		}
 		switch s.Stdout {
 		case "closed":
 			cmd = append(cmd, "/bin/sh", "-c", `exec "$@" >&-`, "sh")
@@ -1056,10 +1077,18 @@ func (c *c19Ctx) execute(s *Scenario, keepDir bool) (out *ScenarioOutcome, viol 
 				}
 			}()
 		}
-		pr := runProcOpts(cliWatchdog, W, baseEnv(append([]string{"GOMAXPROCS=1", "HOME=/nonexistent"}, s.Env...)...), wp.stdinData, s.Stdout == "deadpipe", cmd...)
+		cwd := W
+		switch s.Cwd {
+		case "root":
+			cwd = "/"
+		case "readonly":
+			cwd = filepath.Join(dir, "rocwd")
+			os.Mkdir(cwd, 0555)
+		}
+		pr := runProcOpts(cliWatchdog, cwd, baseEnv(append([]string{"GOMAXPROCS=1", "HOME=/nonexistent"}, s.Env...)...), wp.stdinData, s.Stdout == "deadpipe", cmd...)
 		if pr.TimedOut && !wp.isFifo {
 			// a loaded machine, not necessarily a hang: one more try with four times the budget
-			pr = runProcOpts(4*cliWatchdog, W, baseEnv(append([]string{"GOMAXPROCS=1", "HOME=/nonexistent"}, s.Env...)...), wp.stdinData, s.Stdout == "deadpipe", cmd...)
+			pr = runProcOpts(4*cliWatchdog, cwd, baseEnv(append([]string{"GOMAXPROCS=1", "HOME=/nonexistent"}, s.Env...)...), wp.stdinData, s.Stdout == "deadpipe", cmd...)
 		}
 		if feederDone != nil {
 			// release a feeder that nobody read from (gosk never opened the source)
